@@ -236,7 +236,7 @@ def obligations(run):
                 rn = subst_neg(r, run, w)
                 # bit-for-bit for every non-NaN result; a NaN result (argument outside the domain) must stay NaN (its sign/payload is not a value)
                 return z3.If(z3.fpIsNaN(fpv(r, w)), z3.fpIsNaN(fpv(rn, w)), rn == ((r ^ sb) if odd else r))
-            obs.append(Oblig(op + ('.odd' if odd else '.even'), z3.And(z3.Not(z3.fpIsNaN(x)), *sides_neg), post, lane=i, kind='symm', replay_fn=symm_replay(i, odd)))
+            obs.append(Oblig(op + ('.odd' if odd else '.even'), z3.And(z3.Not(z3.fpIsNaN(x)), *sides_neg), post, lane=i, kind='symm', replay_fn=symm_replay(i, odd), steer_fn=symm_steer(i, odd)))
         if op in ('pow', 'atan2', 'hypot'):
             b = D[1]['lanes'][i]; y = fpv(b, w)
             if op == 'pow':
@@ -248,22 +248,66 @@ def obligations(run):
     return obs
 
 
-def symm_replay(i, odd):
+def symm_replay_inputs(run, inputs, rdir, i, odd):
     """native confirmation of a symmetry counterexample: run the wrapper on x and on -x"""
-    from .. import engine, harness
+    from .. import engine
+    k = run.k; w = TYPES[k.ty][1]
+    neg = {nm: [v ^ (1 << (w - 1)) for v in vs] for nm, vs in inputs.items()}
+    r1, why1 = engine.native_run(k, inputs, rdir, tag='replay')
+    r2, why2 = engine.native_run(k, neg, rdir, tag='replay_neg')
+    info = dict(inputs=engine.show_inputs(inputs), why='%s / %s' % (why1, why2))
+    if r1 is None or r2 is None: return None, info
+    a = int.from_bytes(r1[i * w // 8:(i + 1) * w // 8], 'little'); b = int.from_bytes(r2[i * w // 8:(i + 1) * w // 8], 'little')
+    info['native'] = 'f(x) lane %d = %#x, f(-x) = %#x' % (i, a, b)
+    want = (a ^ (1 << (w - 1))) if odd else a
+    em = ((1 << (w - 1)) - 1) & ~((1 << (23 if w == 32 else 52)) - 1); mm = (1 << (23 if w == 32 else 52)) - 1
+    isnan = lambda v: (v & em) == em and (v & mm) != 0
+    if isnan(a): return (not isnan(b)), info
+    return (b != want), info
+
+
+def symm_replay(i, odd):
+    from .. import harness
     def fn(m, run, rdir):
+        return symm_replay_inputs(run, harness.model_inputs(m, run.desc, run.ex), rdir, i, odd)
+    return fn
+
+
+def symm_steer(i, odd):
+    """called when the solver's counterexample of a symmetry obligation does not reproduce natively (abstract arithmetic: the two copies
+    take different paths for the model's argument, but the real arithmetic gives the same value there, e.g. both overflow).  The set of
+    arguments on which the copies *can* differ is then searched towards its edge: bisection on the magnitude of the examined lane, every
+    step one solver query (is there a counterexample with |x| <= mid?), every model replayed natively; finally a short ladder of arguments
+    just above the smallest divergent magnitude is replayed.  A reproduced difference is a violation; otherwise the obligation stays
+    undecided (never a pass)."""
+    from .. import harness
+    def fn(dec, assumptions, goal, m, run, rdir):
         k = run.k; w = TYPES[k.ty][1]
-        inputs = harness.model_inputs(m, run.desc, run.ex)
-        neg = {nm: [v ^ (1 << (w - 1)) for v in vs] for nm, vs in inputs.items()}
-        r1, why1 = engine.native_run(k, inputs, rdir, tag='replay')
-        r2, why2 = engine.native_run(k, neg, rdir, tag='replay_neg')
-        info = dict(inputs=engine.show_inputs(inputs), why='%s / %s' % (why1, why2))
-        if r1 is None or r2 is None: return None, info
-        a = int.from_bytes(r1[i * w // 8:(i + 1) * w // 8], 'little'); b = int.from_bytes(r2[i * w // 8:(i + 1) * w // 8], 'little')
-        info['native'] = 'f(x) lane %d = %#x, f(-x) = %#x' % (i, a, b)
-        want = (a ^ (1 << (w - 1))) if odd else a
-        em = ((1 << (w - 1)) - 1) & ~((1 << (23 if w == 32 else 52)) - 1); mm = (1 << (23 if w == 32 else 52)) - 1
-        isnan = lambda v: (v & em) == em and (v & mm) != 0
-        if isnan(a): return (not isnan(b)), info
-        return (b != want), info
+        a = run.desc[0]['lanes'][i]; mm = z3.BitVecVal((1 << (w - 1)) - 1, w)
+        mag = a & mm
+        hi = m.eval(mag, model_completion=True).as_long(); lo = -1
+        last = harness.model_inputs(m, run.desc, run.ex)
+        steps = 0
+        while hi - lo > 1 and steps < 36:
+            steps += 1
+            mid = (lo + hi) // 2
+            extra = [z3.ULE(mag, z3.BitVecVal(mid, w))] + ([z3.UGT(mag, z3.BitVecVal(lo, w))] if lo >= 0 else [])
+            r, m2 = dec.check(assumptions + extra, goal, None, 'steer')
+            if r == 'sat':
+                inputs = harness.model_inputs(m2, run.desc, run.ex)
+                verdict, info = symm_replay_inputs(run, inputs, '%s_s%d' % (rdir, steps), i, odd)
+                if verdict: info['rdir'] = '%s_s%d' % (rdir, steps); return True, info
+                hi = m2.eval(mag, model_completion=True).as_long(); last = inputs
+            elif r == 'unsat': lo = mid
+            else: break
+        nm = run.desc[0]['name']
+        sign = last[nm][i] & (1 << (w - 1))
+        for j, d in enumerate((0, 1, 2, 3, 5, 9, 17, 65, 257, 1025, 4097, 1 << 14, 1 << 16, 1 << 18, 1 << 19, 1 << 20)):
+            v = hi + d
+            if v >= ((1 << (w - 1)) - 1) & ~((1 << (23 if w == 32 else 52)) - 1): break     # inf / NaN
+            inputs = {kk: list(vv) for kk, vv in last.items()}
+            inputs[nm] = [sign | v] * len(inputs[nm])
+            verdict, info = symm_replay_inputs(run, inputs, '%s_l%d' % (rdir, j), i, odd)
+            if verdict: info['rdir'] = '%s_l%d' % (rdir, j); return True, info
+        return False, dict(inputs={}, why='no argument between the smallest divergent magnitude %#x and its neighbours reproduces a difference natively' % hi)
     return fn
